@@ -739,6 +739,11 @@ func (e *Env) call(n *CCall) CV {
 		if e.old == nil {
 			panic(cerr("fresh() without entry state"))
 		}
+		if v.Ty != nil {
+			if _, isSl := v.Ty.Underlying().(*types.Slice); isSl {
+				return CV{T: sx(">", sx("s_arr", v.T), e.old.top), Ty: boolT}
+			}
+		}
 		return CV{T: sx(">", v.T, e.old.top), Ty: boolT}
 	case "allocated":
 		need(1)
